@@ -10,3 +10,5 @@ open GoRedis
 #print axioms C03_handler_error_usable
 #print axioms C03_handler_error_reply
 #print axioms C03_zadd_flags_terminate
+#print axioms C03_no_read_ahead
+#print axioms GoRedis.inext_frame
